@@ -188,6 +188,13 @@ class Pipeline:
         if scope is not None:
             self.update_scope(scope, "*", "*")
 
+    def __setstate__(self, state: dict[str, Any]) -> None:
+        self.__dict__.update(state)
+        for f in self.functions:
+            # `PipeFunc.__setstate__` starts with an empty set of pipelines; re-register, so that
+            # updates on a function keep refreshing this (unpickled) pipeline.
+            f._pipelines.add(self)
+
     @property
     def profile(self) -> bool | None:
         """Flag indicating whether profiling information should be collected."""
